@@ -2,6 +2,10 @@ import BertE.Lemmas.StepAll
 import BertE.Lemmas.QValidateEval
 import BertE.Lemmas.SelectEx
 import BertE.Drv.C01
+import BertE.Lemmas.CloseStep5
+import BertE.Lemmas.CloseValidate
+import BertE.Lemmas.CloseSync
+import BertE.Lemmas.CloseEval
 /-
 C01 — forward-port inclusion of destination branches is an invariant.
 
@@ -353,5 +357,129 @@ theorem C01_queue_validated_needs_cascade :
     (observable qvNoDev (evalQueues qvNoDev [1] []) noRej 1).get (.dest (.stab 5 1 5)) = some 3 ∧
     (observable qvNoDev (evalQueues qvNoDev [1] []) noRej 1).get (.dest (.dev 10 (some 0))) = some 4 ∧
     qvNoDev.g.le 3 4 = false := by decide
+
+end BertE.C01
+
+
+/-! ### Work package Close: `Validated` is not a per-step hypothesis
+
+`C01_step_closed` / `C01_run_closed` ask `Select.Validated s` at every queue evaluation (through `Select.AdmB`).
+The plain invariant `Inv` does not imply it (it says nothing of `q/w/` refs that belong to no queued pull request,
+of queue branches no queued pull request targets, of the cascade). `Close.InvV = Inv ∧ Close.VX` adds exactly the
+missing clauses (ids positive; every `q/w/` ref belongs to a queued pull request; the development branches of the
+bookkeeping exist; queue branches upper-closed along the cascade; every stabilization branch has its development
+branch), holds of the empty repository, is preserved by EVERY event (`Close.close_stepV_inv`) and implies
+`Validated`. `Close.AdmV` is `Select.AdmB` WITHOUT its `Validated` clauses, plus: the evaluated pull request has a
+positive id; `create_branch` of a stabilization branch finds its development branch and `delete_branch` of a
+development branch finds no stabilization branch of it (checks of the real jobs, `Close.AdmC`). -/
+namespace BertE.C01
+open BertE.Git BertE.Flow BertE.Select BertE.Close
+
+/-- `Validated` follows from the strengthened invariant -/
+theorem C01_validated_of_invV (s : Sys) (h : InvV s) : Validated s := close_validated_of_invV h
+
+/-- the strengthened invariant holds of the empty repository (either queue mode) -/
+theorem C01_invV_init (useQueue skipQueue : Bool) : InvV ⟨Graph.empty, [], [], [], [], useQueue, skipQueue⟩ :=
+  close_invV_init useQueue skipQueue
+
+/-- **C01, one event, selection computed, no `Validated` hypothesis.** Every event — queue evaluations and
+    pull-request evaluations with the selection the model of `QueueCollection` computes from ANY build statuses,
+    with or without force merge, admin jobs, third-party pushes — preserves inclusion and the strengthened
+    invariant, hence `Validated` holds again in the next state. -/
+theorem C01_step_closed2 (s : Sys) (h : InvV s) (ev : EventB) (hadm : AdmV s ev) :
+    (step s (ev.toEvent s)).1.Incl ∧ InvV (step s (ev.toEvent s)).1 ∧ Validated (step s (ev.toEvent s)).1 :=
+  ⟨(close_stepV_inv h ev hadm).inv.incl, close_stepV_inv h ev hadm,
+   close_validated_of_invV (close_stepV_inv h ev hadm)⟩
+
+/-- **C01, every finite history, selections computed, no `Validated` hypothesis**: inclusion (and `Validated`)
+    holds after every single event. -/
+theorem C01_run_closed2 (s : Sys) (h : InvV s) (evs : List EventB) (hadm : AdmAllV s evs) :
+    ∀ k, (runB s (evs.take k)).Incl ∧ Validated (runB s (evs.take k)) :=
+  fun k => ⟨(close_runV_inv _ h (close_admAllV_take evs s hadm k)).inv.incl,
+    close_validated_of_invV (close_runV_inv _ h (close_admAllV_take evs s hadm k))⟩
+
+/-- Non-vacuity: the history `exHistory` (two branches, two pull requests queued) continued by a queue evaluation
+    with ANY statuses and a force merge is admissible from the empty repository in the new sense - no condition on
+    the two queue evaluations - and the state it reaches satisfies the strengthened invariant. -/
+example (b : Builds) : AdmAllV exEmpty (exHistory ++ [.queues b false, .queues b true]) ∧ InvV exSys := by
+  refine ⟨?_, close_exSys_invV⟩
+  have happ : ∀ (a c : List EventB) (s : Sys), AdmAllV s a → AdmAllV (runB s a) c → AdmAllV s (a ++ c) := by
+    intro a
+    induction a with
+    | nil => intro c s _ hc; exact hc
+    | cons e es ih => intro c s ha hc; exact ⟨ha.1, ih c _ ha.2 hc⟩
+  exact happ _ _ _ close_exHistory_admV ⟨trivial, trivial, trivial⟩
+
+example := C01_step_closed2 Select.exSys close_exSys_invV (.queues Select.exBuilds true) trivial
+example := C01_run_closed2 Select.exEmpty (close_invV_init true false) Select.exHistory close_exHistory_admV
+
+end BertE.C01
+
+
+/-! ### Work package Close: completeness of `validate()` on robot-made queues
+
+`C01_validate_sound` is the soundness of the modelled `QueueCollection.validate()`. Completeness — the robot's own
+queueing passes validation — holds on every state that satisfies `Close.InvQ` (= `Close.InvV` plus `Close.QSync`:
+the queue branch `q/<v>` follows the newest queued pull request of the version; `InvQ` holds of the empty repository
+and is preserved by EVERY event: `Close.close_stepQ_inv`), under the side conditions on the cascade that let
+`handle_merge_queues` reach `validate()` at all (`Close.CascadeSide`: one stabilization branch per major.minor, at
+least one development branch) and `Close.NoTies` (no two queue-integration refs of one version are the same
+commit). Without `NoTies` it fails: that is exactly the known finding D18 (`C05_validate_ties_counterexample`). -/
+namespace BertE.C01
+open BertE.Git BertE.Flow BertE.Select BertE.Close BertE.QV
+
+/-- **Completeness of `validate()`** on the collection the code builds from the refs of a robot-made, tie-free state. -/
+theorem C01_validate_complete (s : Sys) (h : InvQ s) (hcs : CascadeSide s) (hnt : NoTies s) :
+    validate s.g s.remote (build s.g s.remote) (mergePaths (devsPresent s) (stabsPresent s.remote)) = .ok [] ∧
+    validated s = true ∧ errorsOf s = some [] :=
+  ⟨close_validate_complete h.invV h.sync hcs hnt, close_validated h.invV h.sync hcs hnt⟩
+
+/-- **Completeness along histories**: after ANY admissible history from the empty repository, if the cascade lets
+    the queue evaluation reach `validate()` and there is no tie, `validate()` accepts the queues. Together with
+    `C01_validate_sound`: on reachable tie-free states validation neither blocks the robot's own queues nor
+    accepts unsafe ones. -/
+theorem C01_validate_complete_run (useQueue skipQueue : Bool) (evs : List EventB)
+    (hadm : AdmAllV ⟨Graph.empty, [], [], [], [], useQueue, skipQueue⟩ evs)
+    (hcs : CascadeSide (runB ⟨Graph.empty, [], [], [], [], useQueue, skipQueue⟩ evs))
+    (hnt : NoTies (runB ⟨Graph.empty, [], [], [], [], useQueue, skipQueue⟩ evs)) :
+    validated (runB ⟨Graph.empty, [], [], [], [], useQueue, skipQueue⟩ evs) = true :=
+  (C01_validate_complete _ (close_runQ_inv evs (close_invQ_init useQueue skipQueue) hadm) hcs hnt).2.1
+
+/-- **The ref-based queue evaluation is the bookkeeping-based one** (`_partial`: besides the hypotheses of
+    completeness it needs the antisymmetry of commit inclusion, `Close.close_Antisym s.g` — true of every graph built
+    by `Graph.addCommit` (`close_mono_antisym`, `close_mono_addCommit`), not yet carried through `step` as an
+    invariant). Full statement: the same without `ha`.
+    On such a state, for a downward-closed selection that selects a queued pull request, `QV.evalQueues` (reads only
+    refs, guarded by `validate()`) and `Flow.planQueues` (reads the ghost bookkeeping `Sys.queue`) are the same
+    plan: one atomic pruning push with the same content (as maps), the same graph, bookkeeping and outcome. -/
+theorem C01_evalQueues_eq_partial (s : Sys) (h : InvQ s) (ha : close_Antisym s.g) (hcs : CascadeSide s)
+    (hnt : NoTies s) (sel : List Nat) (hdc : DownClosed s sel)
+    (hne : (s.queue.filter fun e => sel.contains e.pr) ≠ []) :
+    ∃ loc loc', (QV.evalQueues s sel (close_wgone s sel)).ops = [.pushAll loc true] ∧
+      (planQueues s sel).ops = [.pushAll loc' true] ∧ (∀ x, loc.get x = loc'.get x) ∧
+      (QV.evalQueues s sel (close_wgone s sel)).g = (planQueues s sel).g ∧
+      (QV.evalQueues s sel (close_wgone s sel)).queue = (planQueues s sel).queue ∧
+      (QV.evalQueues s sel (close_wgone s sel)).outcome = (planQueues s sel).outcome :=
+  close_evalQueues_eq_partial h.invV ha h.sync hcs hnt sel hdc hne
+
+/-- the same for the selection COMPUTED from any build statuses (it is downward closed: `downClosed_selectOf`) -/
+theorem C01_evalQueues_eq_computed_partial (s : Sys) (h : InvQ s) (ha : close_Antisym s.g) (hcs : CascadeSide s)
+    (hnt : NoTies s) (b : Builds) (force : Bool)
+    (hne : (s.queue.filter fun e => (selectOf s b force).contains e.pr) ≠ []) (rej : Ref → Bool) (k : Nat) (x : Ref) :
+    (observable s (QV.evalQueues s (selectOf s b force) (close_wgone s (selectOf s b force))) rej k).get x =
+    (observable s (planQueues s (selectOf s b force)) rej k).get x :=
+  close_evalQueues_observable h.invV ha h.sync hcs hnt _
+    (downClosed_selectOf h.invV.inv (close_validated_of_invV h.invV) b force) hne rej k x
+
+/-- Non-vacuity: `exSys` meets every hypothesis (also the antisymmetry), and pull request 1 is selected under
+    `exBuilds`. -/
+example : InvQ exSys ∧ close_Antisym exSys.g ∧ CascadeSide exSys ∧ NoTies exSys ∧
+    (exSys.queue.filter fun e => (selectOf exSys exBuilds false).contains e.pr) ≠ [] := by
+  refine ⟨close_exSys_invQ, close_mono_antisym close_exSys_mono, by decide, by decide, ?_⟩
+  rw [exSys_select.1]; decide
+
+example := C01_validate_complete exSys close_exSys_invQ (by decide) (by decide)
+example := C01_validate_complete_run true false exHistory close_exHistory_admV (by decide) (by decide)
+example := C01_evalQueues_eq_partial exSys close_exSys_invQ (close_mono_antisym close_exSys_mono) (by decide) (by decide)
 
 end BertE.C01
